@@ -23,6 +23,7 @@ META = {
     "required_counters": ["frames_checked", "key_draws_default", "key_draws_custom"],
     "assumptions": ["wsaccel absent"],
 }
+META["claim"] += " " + "Also driven: one ABNF object written several times (re-sent unchanged and with data/fin/opcode updated between writes) - every write is a frame of its own with a fresh key; the repository's own tests re-run with icontract postconditions on ABNF.format/ABNF.mask."
 
 try:
     from websockets.frames import Frame as _WsFrame
